@@ -15,7 +15,7 @@ import (
 
 type globalInit struct {
 	fields map[string]*big.Int // struct: scalar integer fields by heap map name
-	kind   string // scalar, slice, array, func, struct
+	kind   string              // scalar, slice, array, func, struct
 	scalar *big.Int
 	isBool bool
 	elems  []*big.Int
